@@ -81,7 +81,7 @@ def bytes_(ctx):
                     if s[0] == "A" and s[2][0] == "agg" and isinstance(s[2][1], dict) and s[2][1].get("adt", "").endswith("LockType") and op_local(c.args[1]) == s[1][0]:
                         lt = s[2][1]["variant"]
         got.append((name or str(val), lt, c))
-    if not R.floor(len(got), 15, "lock-calls", "lock() calls in lock_all"):
+    if not R.floor(len(got), 11, "lock-calls", "lock() calls in lock_all"):
         return
     consts = {cid.rsplit("::", 1)[-1]: c.get("v") for cid, c in F.consts.items() if cid.startswith(RS)}
     wal_need = {"WRITE", "CKPT", "RECOVER", "READ0", "READ1", "READ2", "READ3", "READ4"}
